@@ -92,13 +92,13 @@
    F16 Quirk: a segment with D# = 0 and nothing written before the fields section has
        its first field record at file offset 0 (which the shipped reader takes for
        "absent").  This decoder decodes what the bytes say (all NF records).
-   F17 Quirk found with this decoder: in a segment BUILT from an empty batch the record at
-       offset 0 (`_id`) can carry a non-zero, dangling inverted-section address (e.g.
-       0x125 in an 86-byte file): `invertedIndexOpaque.Reset` does not clear `fieldAddrs`,
-       `writeDicts` returns early for an empty batch, so `AddrForField` hands out the
-       address left behind by the previous build that used the pooled `interim`.  The
-       shipped reader never follows it (F16).  Here: for D# = 0 the section addresses of
-       the record at offset 0 are not followed (name and framing still are).
+   F17 Found with this decoder (defect D9, fixed in /repo): in a segment BUILT from an empty
+       batch the record at offset 0 (`_id`) carried a non-zero, dangling inverted-section
+       address (e.g. 0x125 in an 86-byte file): `invertedIndexOpaque.Reset` did not clear
+       `fieldAddrs`, `writeDicts` returns early for an empty batch, so `AddrForField` handed
+       out the address left behind by the previous build that used the pooled `interim`.  The
+       shipped reader never follows it (F16); a reader written from the documented layout
+       does.  This decoder follows every non-zero section address.
    F18 Synonym ids are file-local names: one counter per batch over ALL thesauri in New
        (`sidNext`), one per field in Merge.  The comparison with the model is therefore
        modulo renaming (codes are resolved to (synonym term, doc) through the file's own
@@ -647,15 +647,13 @@ def decField (c : Ctx) (addr : Nat) : R FieldM := do
   let (ns, p) ← uv b (p + nl)
   if ns > b.size then throw s!"field record {addr}: section count {ns} exceeds the file size"
   let mut fm : FieldM := { name := name }
-  -- F17: the record at offset 0 of an empty segment may carry a stale section address
-  let follow := !(c.numDocs = 0 ∧ addr = 0)
   let mut seen : List Nat := []
   for j in [0:ns] do
     let typ ← be b (p + 10 * j) 2
     let sa ← be b (p + 10 * j + 2) 8
     if seen.contains typ then throw s!"field record {addr}: section type {typ} listed twice"
     seen := typ :: seen
-    if sa ≠ 0 ∧ follow then
+    if sa ≠ 0 then
       if typ = 0 then
         let (terms, dv) ← decInverted c sa
         fm := { fm with terms := terms, dv := dv }
